@@ -10,4 +10,5 @@ CONSTANTS
   Direct = TRUE
   MidCrash = FALSE
   Timeouts = FALSE
+  MaxWriteFaults = 0
 PROPERTY NoRerunCtl
